@@ -56,8 +56,9 @@ Theorem bundle_read_amplifies_refuted :
     b_read any_cert bs = Ok b /\ 20 * lenN bs < body_bytes b.
 Proof.
   pose proof amp_check as C.
-  destruct (b_read any_cert amp_bytes) as [b| | |] eqn:E; try discriminate C.
-  exists amp_bytes, b. split; [reflexivity|].
+  destruct (b_read any_cert amp_bytes) as [b| | |] eqn:E;
+    [|discriminate C|discriminate C|discriminate C].
+  exists amp_bytes, b. split; [exact E|].
   apply andb_prop in C. destruct C as [C _]. apply andb_prop in C. destruct C as [C _].
   apply andb_prop in C. destruct C as [C _]. apply andb_prop in C. destruct C as [C _].
   apply N.ltb_lt. exact C.
@@ -70,7 +71,8 @@ Theorem bundle_read_amplifies_numbers :
     body_bytes b = 120000 /\ lenN (b_exchanges b) = 60 /\ b_taint b = false.
 Proof.
   pose proof amp_check as C.
-  destruct (b_read any_cert amp_bytes) as [b| | |] eqn:E; try discriminate C.
+  destruct (b_read any_cert amp_bytes) as [b| | |] eqn:E;
+    [|discriminate C|discriminate C|discriminate C].
   exists b.
   apply andb_prop in C. destruct C as [C T]. apply andb_prop in C. destruct C as [C C4].
   apply andb_prop in C. destruct C as [C C3]. apply andb_prop in C. destruct C as [_ C2].
